@@ -123,9 +123,15 @@ def fetchComponent : Nat → World → List String → String → CompE → R
             seqR (allR (fun k => match findC cs' k with
               | none => .ok
               | some kc => fetchComponent n w (path ++ [cur]) url kc) sc.kids) fun _ =>
-            allR (fun un => match findU us' un with
+            seqR (allR (fun un => match findU us' un with
               | none => .fail .missingComponent
-              | some uu => fetchUnits n w (path ++ [cur]) url uu) ((subUnits cs'.length cs' sc).eraseDups)
+              | some uu => fetchUnits n w (path ++ [cur]) url uu) ((subUnits cs'.length cs' sc).eraseDups)) fun _ =>
+            -- the components that a library model encapsulates in this import (those of the origin are fetched in
+            -- their own right by `resolve`)
+            if path.isEmpty then .ok else
+            allR (fun k => match findC cs k with
+              | none => .ok
+              | some kc => fetchComponent n w path cur kc) c.kids
     | _ => .ok
 
 /-- all (file, units name) pairs of the world -/
